@@ -1,4 +1,5 @@
 import RepeVerif.Model.Router
+import RepeVerif.Model.RouterStruct
 /-! Helper lemmas for C07 (router, middleware, JSON-pointer tokenisers). Core Lean only. -/
 namespace Repe.Router
 
@@ -503,14 +504,224 @@ theorem get_exact_first (F : Facts) (rest : List Coll) (hF : F.getOrder = .exact
     r.get F path = some ⟨.exact, path, e⟩ := by
   simp [Router.get, hF, Router.lookupIn, h]
 
+/-! ## which paths a router serves, as a function of its registration history -/
+
+/-- Does this registration make `path` served? -/
+def Op.covers (path : Str) : Op → Bool
+  | .route p _ => p = path
+  | .registry p _ => mountMatches (normRegistryPrefix p) path
+  | .struct p _ => mountMatches (normStructRoot p) path
+  | .middleware _ => false
+
+def Router.covers (r : Router) (path : Str) : Bool :=
+  r.inner.any (fun pe => pe.1 = path) || r.registries.any (fun pe => mountMatches pe.1 path) ||
+  r.structs.any (fun pe => mountMatches pe.1 path)
+
+theorem rebuild_any (F : Facts) (c : Coll) (mws : List Nat) (es : List (Str × Entry)) (P : Str → Bool) :
+    (rebuild F c mws es).any (fun pe => P pe.1) = es.any (fun pe => P pe.1) := by
+  unfold rebuild
+  split
+  · induction es with
+    | nil => rfl
+    | cons a es ih => simp only [List.map_cons, List.any_cons, ih]
+  · rfl
+
+theorem apply_covers (F : Facts) (r : Router) (op : Op) (path : Str) :
+    (r.apply F op).covers path = (r.covers path || op.covers path) := by
+  cases op with
+  | route p h =>
+    simp only [Router.apply, Router.covers, Op.covers, List.any_cons]
+    by_cases hp : p = path
+    · simp [hp]
+    · have : (r.inner.filter (fun pe => pe.1 ≠ p)).any (fun pe => pe.1 = path) = r.inner.any (fun pe => pe.1 = path) := by
+        rw [List.any_filter]
+        congr 1
+        funext pe
+        by_cases h : pe.1 = path
+        · have : ¬ path = p := fun e => hp e.symm
+          simp [h, this]
+        · simp [h]
+      rw [this]
+      simp [hp]
+  | registry p h =>
+    simp only [Router.apply, Router.covers, Op.covers, List.any_append, List.any_cons, List.any_nil, Bool.or_false]
+    cases r.inner.any _ <;> cases r.registries.any _ <;> cases r.structs.any _ <;> cases mountMatches _ _ <;> rfl
+  | struct p h =>
+    simp only [Router.apply, Router.covers, Op.covers, List.any_append, List.any_cons, List.any_nil, Bool.or_false]
+    cases r.inner.any _ <;> cases r.registries.any _ <;> cases r.structs.any _ <;> cases mountMatches _ _ <;> rfl
+  | middleware m =>
+    simp only [Router.apply, Router.covers, Op.covers, Bool.or_false]
+    rw [rebuild_any F .exact _ _ (fun k => decide (k = path)), rebuild_any F .registries _ _ (fun k => mountMatches k path),
+        rebuild_any F .structs _ _ (fun k => mountMatches k path)]
+
+theorem run_covers (F : Facts) (ops : List Op) (r : Router) (path : Str) :
+    (r.run F ops).covers path = (r.covers path || ops.any (Op.covers path)) := by
+  induction ops generalizing r with
+  | nil => simp [Router.run]
+  | cons op ops ih =>
+    have := ih (r.apply F op)
+    simp only [Router.run, List.foldl_cons] at this ⊢
+    rw [this, apply_covers, List.any_cons, Bool.or_assoc]
+
+theorem get_isSome_eq_covers (F : Facts) (hF : F.getOrder = [.exact, .registries, .structs]) (r : Router) (path : Str) :
+    (r.get F path).isSome = r.covers path := by
+  unfold Router.get Router.covers
+  rw [hF]
+  simp only [List.findSome?_cons, List.findSome?_nil, Router.lookupIn, lookupExact, lookupMount]
+  cases h1 : r.inner.find? (fun pe => pe.1 = path) with
+  | some a =>
+    have : r.inner.any (fun pe => pe.1 = path) = true := by
+      rw [List.any_eq_true]; exact ⟨a, List.mem_of_find?_eq_some h1, by simpa using List.find?_some h1⟩
+    simp [this]
+  | none =>
+    have e1 : r.inner.any (fun pe => decide (pe.1 = path)) = false := by
+      rw [List.any_eq_false]; intro x hx; exact List.find?_eq_none.mp h1 x hx
+    simp only [Option.map_none, e1, Bool.false_or]
+    cases h2 : r.registries.find? (fun pe => mountMatches pe.1 path) with
+    | some a =>
+      have : r.registries.any (fun pe => mountMatches pe.1 path) = true := by
+        rw [List.any_eq_true]; exact ⟨a, List.mem_of_find?_eq_some h2, by simpa using List.find?_some h2⟩
+      simp [this]
+    | none =>
+      have e2 : r.registries.any (fun pe => mountMatches pe.1 path) = false := by
+        rw [List.any_eq_false]; intro x hx; exact List.find?_eq_none.mp h2 x hx
+      simp only [Option.map_none, e2, Bool.false_or]
+      cases h3 : r.structs.find? (fun pe => mountMatches pe.1 path) with
+      | some a =>
+        have : r.structs.any (fun pe => mountMatches pe.1 path) = true := by
+          rw [List.any_eq_true]; exact ⟨a, List.mem_of_find?_eq_some h3, by simpa using List.find?_some h3⟩
+        simp [this]
+      | none =>
+        have e3 : r.structs.any (fun pe => mountMatches pe.1 path) = false := by
+          rw [List.any_eq_false]; intro x hx; exact List.find?_eq_none.mp h3 x hx
+        simp [e3]
+
+/-! ## derived structs: addressing -/
+
+theorem resolve_path (segs : List Str) : ∀ (fs : Spec) (pre : List Str) (b : Bool) (a : Access),
+    resolve fs pre segs b = .ok a → a.path = pre ++ segs := by
+  induction segs with
+  | nil =>
+    intro fs pre b a h
+    simp only [resolve] at h
+    cases b <;> simp at h <;> cases h <;> simp [Access.path]
+  | cons head tail ih =>
+    intro fs pre b a h
+    rw [resolve] at h
+    split at h
+    · cases h
+    · split at h
+      · cases h
+      · rename_i ht
+        have : tail = [] := by simpa using ht
+        subst this
+        split at h
+        · cases h; simp [Access.path]
+        · split at h
+          · cases h
+          · cases h; simp [Access.path]
+    · split at h
+      · rename_i ht
+        have : tail = [] := by simpa using ht
+        subst this
+        split at h
+        · cases h; simp [Access.path]
+        · split at h
+          · cases h
+          · cases h; simp [Access.path]
+      · have := ih _ _ _ _ h
+        simpa using this
+    · split at h
+      · cases h
+      · rename_i ht
+        have : tail = [] := by simpa using ht
+        subst this
+        split at h
+        · cases h
+        · cases h; simp [Access.path]
+
+/-- A path that resolves to a leaf write resolves, without a body, to the read of the same leaf. -/
+theorem resolve_write_read (segs : List Str) : ∀ (fs : Spec) (pre : List Str) (p : List Str),
+    resolve fs pre segs true = .ok (.write p) → resolve fs pre segs false = .ok (.read p) := by
+  induction segs with
+  | nil => intro fs pre p h; simp [resolve] at h
+  | cons head tail ih =>
+    intro fs pre p h
+    rw [resolve] at h ⊢
+    cases hl : fs.lookup head with
+    | none => simp [hl] at h
+    | some node =>
+      cases node with
+      | leaf ro =>
+        simp only [hl] at h ⊢
+        by_cases ht : tail.isEmpty = true
+        · simp only [ht, Bool.not_true, Bool.false_eq_true, if_false] at h ⊢
+          cases ro
+          · simp at h ⊢; exact h
+          · simp at h
+        · simp [ht] at h
+      | nested ro fs' =>
+        simp only [hl] at h ⊢
+        by_cases ht : tail.isEmpty = true
+        · simp only [ht, if_true, Bool.not_true, Bool.false_eq_true, if_false] at h
+          cases ro <;> simp at h
+        · simp only [ht] at h ⊢
+          exact ih _ _ _ h
+      | method ta un =>
+        simp only [hl] at h
+        by_cases ht : tail.isEmpty = true
+        · simp only [ht, Bool.not_true, Bool.false_eq_true, if_false] at h
+          split at h <;> cases h
+        · simp [ht] at h
+
+theorem store_get_set (st : Store) (d : Bytes) (p : List Str) (v : Bytes) : (st.set p v).get d p = v := by
+  simp [Store.set, Store.get]
+
+theorem store_get_set_ne (st : Store) (d : Bytes) (p q : List Str) (v : Bytes) (h : q ≠ p) :
+    (st.set p v).get d q = st.get d q := by
+  have : ¬ p = q := fun e => h e.symm
+  simp [Store.set, Store.get, this]
+
 /-! ## middleware chains -/
 
 theorem nextRun_forwarding {κ ρ} (h : Handler κ ρ) (ctx : Option κ) (mws : List (Mw κ ρ))
-    (hf : ∀ m ∈ mws, Forwarding m) (req : Msg) : nextRun h ctx mws req = nextRun h ctx [] req := by
+    (hf : ∀ m ∈ mws, Forwarding m) (req : Msg) : nextRun true h ctx mws req = nextRun true h ctx [] req := by
   induction mws with
   | nil => rfl
   | cons m rest ih =>
-    rw [nextRun, hf m (by simp) ctx req, ih (fun x hx => hf x (by simp [hx]))]
+    rw [nextRun]
+    simp only [if_true]
+    rw [hf m (by simp) ctx req]
+    exact ih (fun x hx => hf x (by simp [hx]))
+
+/-- A chain of `n` spies, for every `n`: each link is shown the caller's context, and the leaf is
+entered with it. -/
+theorem nextRun_spies {κ ρ} (h : Handler κ (List (Option κ) × ρ)) (ctx : Option κ) (n : Nat) (req : Msg) :
+    nextRun true h ctx (List.replicate n spyMw) req =
+      (List.replicate n ctx ++ (nextRun true h ctx [] req).1, (nextRun true h ctx [] req).2) := by
+  induction n with
+  | zero => simp
+  | succ n ih =>
+    rw [List.replicate_succ, nextRun]
+    simp only [if_true, spyMw, ih, List.replicate_succ, List.cons_append]
+
+/-- Without the forwarding (what a rebuilt `Next::new(rest, handler)` does) the context is gone
+after the first hop: the fact is needed. -/
+theorem nextRun_spies_dropped {κ ρ} (h : Handler κ (List (Option κ) × ρ)) (c : κ) (n : Nat) (req : Msg) :
+    nextRun false h (some c) (List.replicate (n + 1) spyMw) req =
+      (List.replicate (n + 1) none ++ (h.handle req).1, (h.handle req).2) := by
+  have key : ∀ n, nextRun false h none (List.replicate n spyMw) req =
+      (List.replicate n none ++ (h.handle req).1, (h.handle req).2) := by
+    intro n
+    induction n with
+    | zero => simp [nextRun]
+    | succ n ih =>
+      rw [List.replicate_succ, nextRun]
+      simp only [ite_self, spyMw, ih]
+      simp [List.replicate_succ]
+  rw [List.replicate_succ, nextRun]
+  simp only [spyMw, Bool.false_eq_true, if_false, key n]
+  simp [List.replicate_succ]
 
 /-! ## owned / borrowed twins -/
 
